@@ -55,6 +55,8 @@ class Gen:
 
     def cond(self, env):
         r = self.r
+        if r.random() < 0.08:
+            return r.choice(["1", "0", "3", "1"])  # a bare literal as the condition
         t = r.choice([ty for ty in ("int", "float") if any(v == ty for v in env.values())] or ["int"])
         c = f"({self.expr(t, env, 1)} {r.choice(['<', '>', '<=', '>=', '==', '!='])} {self.expr(t, env, 1)})"
         if r.random() < 0.2:
@@ -126,6 +128,15 @@ class Gen:
             self.readonly.add(k)
             return (p + f"for (int {k} = 0; {k} < {r.randint(1, 4)}; ++{k}) {{\n" + self.block(e2, ind + 1, depth + 1, True)
                     + p + "}\n")
+        if kind == "while" and depth < 2 and r.random() < 0.2:
+            # `while (1)` left through a counted break
+            c = self.fresh("c")
+            e2 = dict(env)
+            e2[c] = "int"
+            self.readonly.add(c)
+            body = (p + "  " + f"{c} = ({c} + 1);\n" + p + "  " + f"if (({c} > {r.randint(1, 4)})) {{\n{p}    break;\n{p}  }}\n"
+                    + self.block(e2, ind + 1, depth + 1, False))
+            return p + f"int {c} = 0;\n" + p + "while (1) {\n" + body + p + "}\n"
         if kind in ("while", "do") and depth < 2:
             cs = [n for n, ty in env.items() if ty == "int" and n not in self.readonly]
             if not cs:
@@ -183,6 +194,15 @@ class Gen:
                 t = r.choice(VECS)
                 genv[gn] = t
                 out.append(f"{t} {gn};\n")
+        wide = None
+        if r.random() < 0.2:
+            # a non-exported helper with a long parameter list (long mangled name)
+            t = r.choice(["float", "int"])
+            n = r.randint(9, 14)
+            wide = ("wide", t, n)
+            ps = ", ".join(f"{t} a{k}" for k in range(n))
+            out.append(f"function wide({ps}) -> {t} {{\n  return ((a0 + a{n - 1}) + a{n // 2});\n}}\n")
+        self.wide = wide
         names = r.sample(["main", "shade", "f", "g_", "eval", "kernel", "step", "blend", "k2", "Fn"], r.randint(1, 5))
         for fname in names:
             self.readonly = set()
@@ -196,6 +216,9 @@ class Gen:
             self.ret = r.choice(["int", "float", "uint", "void", "int", "float"])
             first = r.choice(["while", "do", "for", "if", "decl", "assign", "decl"])
             body = self.stmt(env, 1, 0, False, first) + self.block(env, 1, 0, False, r.randint(0, 4))
+            if self.wide and r.random() < 0.6:
+                _w, wt, wn = self.wide
+                body += f"  {wt} {self.fresh('w')} = wide(" + ", ".join(self.expr(wt, env, 2) for _ in range(wn)) + ");\n"
             if self.ret != "void":
                 body += f"  return {self.expr(self.ret, env)};\n"
             out.append(f"export function {fname}({', '.join(params)}) -> {self.ret} {{\n{body}}}\n")
